@@ -2,9 +2,12 @@
 package hx
 
 import (
+	"fmt"
 	"io"
 	"log/slog"
 	"net"
+	"os"
+	"sync/atomic"
 	"time"
 
 	"github.com/thushan/olla/internal/logger"
@@ -16,14 +19,26 @@ func QuietLogger() logger.StyledLogger {
 	return logger.NewPlainStyledLogger(slog.New(h))
 }
 
-// FreePort asks the kernel for a free localhost TCP port.
+var portCtr int64
+
+// FreePort returns a localhost TCP port nobody listens on, drawn from a range that is specific
+// to this process and lies below the kernel's ephemeral range. Several check processes run at
+// the same time; if they all asked the kernel for ":0" ports and released them again, two of them
+// could be handed the same port before their servers listen, and one would silently end up
+// talking to the other's Olla.
 func FreePort() int {
-	l, err := net.Listen("tcp", "127.0.0.1:0")
-	if err != nil {
-		panic(err)
+	base := 10000 + (os.Getpid()%20)*1000 // 20 disjoint ranges of 1000 ports; shards have consecutive pids
+	for i := 0; i < 5000; i++ {
+		n := atomic.AddInt64(&portCtr, 1)
+		port := base + int(n)%1000
+		l, err := net.Listen("tcp", fmt.Sprintf("127.0.0.1:%d", port))
+		if err != nil {
+			continue
+		}
+		l.Close()
+		return port
 	}
-	defer l.Close()
-	return l.Addr().(*net.TCPAddr).Port
+	panic("no free port")
 }
 
 // Poll calls f every step until it returns true or the budget is used up.
